@@ -90,6 +90,15 @@ def applyAction (s : EState) : Action → EState
     | none => s
   | .monitor sig v => monitorUpdate s sig v
 
+/-- the harness executes status / monitor / release actions of an arrival at once (inside the arrival hook)
+    and queues the request coroutines behind them with call_soon -/
+def Action.immediate : Action → Bool
+  | .status _ _ | .monitor _ _ | .release _ => true
+  | _ => false
+
+def orderActions (as : List Action) : List Action :=
+  as.filter (·.immediate) ++ as.filter (fun a => !a.immediate)
+
 abbrev Script := List (Nat × List Action)
 
 def scriptAt (sc : Script) (n : Nat) : List Action :=
@@ -121,7 +130,7 @@ def schedule (maxArr : Nat) (sc : Script) : Nat → EState → EState
       let n := s.arrivals.length
       let s := { s with arrivals := s.arrivals ++ [arrivalKind s.pc] }
       let s := flushCompletions s
-      let s := if n >= maxArr then applyAction s .halt else (scriptAt sc n).foldl applyAction s
+      let s := if n >= maxArr then applyAction s .halt else (orderActions (scriptAt sc n)).foldl applyAction s
       schedule maxArr sc fuel (advance 4000 s)
     | .inWait _ | .inWaitFor _ =>
       let s := flushCompletions s
@@ -135,7 +144,7 @@ def schedule (maxArr : Nat) (sc : Script) : Nat → EState → EState
         | [] =>
           let (s'', did) := releaseAll s'
           schedule maxArr sc fuel (if did then s'' else applyAction s'' .halt)
-        | as => schedule maxArr sc fuel (as.foldl applyAction s')
+        | as => schedule maxArr sc fuel ((orderActions as).foldl applyAction s')
       else schedule maxArr sc fuel s'
 
 /-- outcome of a blocking API call as seen by the caller -/
